@@ -1531,13 +1531,14 @@ class SpaceManager(SharedSpaceOperations):
 
         for subspace in self._get_subs(space):
             is_relative = False
+            subvalue = value
             if name in subspace.own_refs:
                 continue
             if isinstance(value, Interface) and value._is_valid():
                 if refmode == "auto" or refmode == "relative":
-                    is_relative, value = self.get_relative_interface(
+                    is_relative, subvalue = self.get_relative_interface(
                         subspace, space.own_refs[name])
-            ref = subspace.on_create_ref(name, value, is_derived=True,
+            ref = subspace.on_create_ref(name, subvalue, is_derived=True,
                                    refmode=refmode)
             ref.is_relative = is_relative
 
@@ -1562,12 +1563,13 @@ class SpaceManager(SharedSpaceOperations):
                 continue
             elif subref.defined_bases[0] is not space.own_refs[name]:
                 continue
+            subvalue = value
             if isinstance(value, Interface) and value._is_valid():
                 if (refmode == "auto"
                         or refmode == "relative"):
-                    is_relative, value = self.get_relative_interface(
+                    is_relative, subvalue = self.get_relative_interface(
                         subspace, space.own_refs[name])
-            subspace.on_change_ref(name, value,
+            subspace.on_change_ref(name, subvalue,
                                    is_derived=True, refmode=refmode,
                                    is_relative=is_relative)
             # on_change_ref returns the replaced reference
